@@ -145,21 +145,26 @@ def opsC08 : List (String × Handler) := [
           let (jt, rest) ← Wire.take (m * n) rest
           let (dt, rest) ← Wire.take n rest
           let (rt, rest) ← Wire.take m rest
-          if !rest.isEmpty then throw "arity"
+          -- optional trailing token: 1 = the code's zero denominator is -0. (sign bit set), 0 = +0.
+          let negZero ← match rest with
+            | [] => pure false
+            | [z] => do let z ← nat z; pure (z == 1)
+            | _ => throw "arity"
           let J := rowsOf m n (← nums jt)
           let Dv ← nums dt
           let R ← nums rt
           let nm := last - loss
           let den := qualityDen J Dv R
-          let v := verdict h.high h.low nm den
-          let s' := match force with
-            | 9 => stratUpd kd h s nm den
+          let v := verdictZ negZero h.high h.low nm den
+          let r : Except String (SState BigF) := match force with
+            | 9 => stratUpdZ kd negZero h s nm den
             | f =>
               let fv := if f == 0 then Verdict.very else if f == 1 then Verdict.ok else Verdict.bad
               match kd with
-              | .constant => updConstant s
-              | .adaptive => updAdaptive h s fv
-              | .trust => updTrust h s fv
+              | .constant => .ok (updConstant s)
+              | .adaptive => .ok (updAdaptive h s fv)
+              | .trust => updTrustE h s fv
+          let s' ← r
           return fmt [s'.damping, s'.radius, s'.down, BigF.ofNat (verdictNum v), nm, den]
         | _ => throw "arity"
       | _ => throw "arity"),
@@ -244,7 +249,8 @@ def opsC08 : List (String × Handler) := [
       | no :: rest =>
         let no ← nat no
         let outs ← parseOutputs no rest
-        return fmt [lossOf spec outs]
+        let v ← lossOfE spec outs
+        return fmt [v]
       | _ => throw "arity"),
   -- c08.init kind a b  -> damping radius down of the param group a strategy constructor produces
   --   kind 0: Constant(damping=a); 1: Adaptive(damping=a, down=b); 2: TrustRegion(radius=a, down=b)
